@@ -76,6 +76,8 @@ def run_variant(args) -> dict:
         pids = variant.get("check", [variant["property"]])
         fired = []
         for pid in pids:
+            if pid not in reg:
+                continue
             mod = reg[pid]
             buf = io.StringIO()
             try:
